@@ -13,11 +13,23 @@ def family(ctx):
         out += families.exhaustive(kind, 2, 2, n, r.fork(kind))
     for _ in range(40 if ctx.quick else 600):
         out.append(progs.gen_mixed(r))
+    from gen import corpus, litmus
+    out += corpus.corpus("C16")
+    out += [p for p in litmus.family(ctx.seed, True) if "fence sc" in p][: (20 if ctx.quick else 200)]
     # leave state behind: leaks, deadlocks, races, panics, objects of every kind
     out += ["cfg | T0: anew 0", "cfg | T0: tnew 0", "cfg q=1 | T0: send 0 1", "cfg m=1 | T0: lock 0",
             "cfg m=1 | T0: spawn 1; lock 0; join 1 | T1: lock 0", "cfg c=1 | T0: spawn 1; cwr 0 1; join 1 | T1: cwr 0 2",
             "cfg x=1 | T0: spawn 1; st 0 1 rlx; panic | T1: ld 0 rlx", "cfg | T0: spawn 1; spawn 2; spawn 3; spawn 4 | T1: park | T2: park | T3: park | T4: park"]
     return list(dict.fromkeys(out))
+
+
+def F_ok(failure):
+    """failures of the lower bound that are the listed incompleteness of the pinned tree (F1, F2, F16) are
+    not this property's business"""
+    from checks import findings as F
+    p, kind, o = failure
+    yield any(F.SIGNATURES[c](p, kind, o) for c in ("dpor-atomic-single-slot", "fence-acquire-over-sync",
+                                                     "seqcst-load-pruning"))
 
 
 def run_cmd(args, programs):
@@ -68,6 +80,12 @@ def run(ctx):
             if it["ev"] and it["ev"][0][0] != "0":
                 failures.append((p, "forbidden", f"iteration {it['idx']} does not start on the main thread"))
                 break
+    # weak-memory outcomes of the fence programs must not depend on the iteration they are explored in:
+    # every RC11(strong) outcome has to be explored (a clock leaking from iteration to iteration removes some)
+    from gen import corpus
+    fence_progs = [p for p in programs if "fence sc" in p and "crd" not in p and "cwr" not in p]
+    failures += [f for f in ctx.rc11_check(fence_progs, fresh, lower=True, upper=False)
+                 if not any(F_ok(f)) ]
     unlisted = ctx.attribute(failures, differing)
     if dis and not unlisted:
         for d in dis[:3]:
